@@ -25,6 +25,7 @@ RULE = (
     "marker is left behind, and no sbatch follows (also not from commands issued afterwards); non-trivial = >= 1 recovery "
     "round or >= 3 submitter rounds; distinct by hash of the case"
 )
+RULE += " Later additions (DESIGN.md 9): " + 'one operator command bound to the end of a batch and held back between two lock holds; a fifth of the cases at file-operation granularity.'
 ASSUMPTIONS = C.WORLD_ASSUMPTIONS + [
     "liveness is checked as bounded progress per recovery round, not as unbounded 'eventually'",
     "fault-free runs only (no killed process, no failing command)",
